@@ -11,16 +11,17 @@ import (
 
 // BearerSpec describes a JWT-bearer authorization grant assertion (RFC 7523).
 type BearerSpec struct {
-	Iss, Sub, Kid string
-	Aud           []string // nil = the token URL
-	Scopes        []string
-	JTI           string
-	Exp, Iat, Nbf *time.Time // nil = sensible default (exp in 1 tick, iat now, no nbf)
-	NoExp, NoIat  bool
-	Alg           string      // default RS256
-	Key           interface{} // signing key; nil = the second RSA key of the fixture
-	Raw           string      // if set: send this assertion verbatim
-	Client        string      // authenticate as this client as well ("" = rely on CanSkipClientAuth)
+	Iss, Sub, Kid  string
+	Aud            []string // nil = the token URL
+	Scopes         []string
+	JTI            string
+	Exp, Iat, Nbf  *time.Time // nil = sensible default (exp in 1 tick, iat now, no nbf)
+	NoExp, NoIat   bool
+	EmptyAssertion bool        // the form carries assertion=""
+	Alg            string      // default RS256
+	Key            interface{} // signing key; nil = the second RSA key of the fixture
+	Raw            string      // if set: send this assertion verbatim
+	Client         string      // authenticate as this client as well ("" = rely on CanSkipClientAuth)
 }
 
 func (w *World) signBearer(b BearerSpec) string {
@@ -80,6 +81,9 @@ func (w *World) doJWTBearer(p int, b BearerSpec) Obs {
 	f := url.Values{}
 	f.Set("grant_type", "urn:ietf:params:oauth:grant-type:jwt-bearer")
 	f.Set("assertion", w.signBearer(b))
+	if b.EmptyAssertion {
+		f.Set("assertion", "")
+	}
 	if len(b.Scopes) > 0 {
 		f.Set("scope", strings.Join(b.Scopes, " "))
 	}
